@@ -27,6 +27,10 @@
       `interrupted_flow_keeps_position`, `interruption_resumes_own_statement` — several flows, function level, arbitrary lists;
     * `run_follows_program`, `gen_fuel_suffices` — the action loop `generate_events` (`V1Run`);
     * `mutation_benign` — `slide`'s writes into the shared element dicts are invisible to every later decision (`V1Mut`).
+  Wave 3 (end of this file):
+    * `compile_annotated_projects`, `loop_keys_read_only_by_loops`, `slide_annotated_simulates(_resume)`, `if_reads_next_else_only`,
+      `if_brk_variant_counterexample` — the element dicts WITH the loop keys the annotation pass leaves on every element of a loop
+      body (`V1Annot`): `slide` on them follows the structured program; `if` skips by `_next_else` whatever loop keys it carries.
   What is NOT carried by a theorem (function-level theorems + correspondence + oracle only): histories with several dialog
   flows (interruption by another dialog flow, abort, extension flows, priorities), `hide_prev_turn`, `bot stop`, and
   everything the widened model executes for llm_flows.co.
@@ -41,9 +45,10 @@ import NemoVerif.Lemmas.V1StackFollow
 import NemoVerif.Lemmas.V1Hide
 import NemoVerif.Lemmas.V1Run
 import NemoVerif.Lemmas.V1Mut
+import NemoVerif.Lemmas.V1Annot
 import NemoVerif.Generated.LlmFlowsV1
 namespace NemoVerif.C14
-open NemoVerif.V1Interp NemoVerif.V1Struct NemoVerif.V1Follow NemoVerif.V1Sub NemoVerif.V1Multi NemoVerif.V1Run NemoVerif.V1RunL NemoVerif.V1Mut NemoVerif.V1FollowDo NemoVerif.V1Stack NemoVerif.V1StackFollow
+open NemoVerif.V1Annot NemoVerif.V1Interp NemoVerif.V1Struct NemoVerif.V1Follow NemoVerif.V1Sub NemoVerif.V1Multi NemoVerif.V1Run NemoVerif.V1RunL NemoVerif.V1Mut NemoVerif.V1FollowDo NemoVerif.V1Stack NemoVerif.V1StackFollow
 
 /-- The compiler as the code has it (compile sub-blocks, then annotate every element of a loop body
     with `_next_on_break`/`_next_on_continue` unless an inner loop already did) computes the same
@@ -944,5 +949,85 @@ theorem hide_prev_turn_is_cut (r : Bool) (cfgs : Cfgs) (config : Ctx) (H H' : Li
 example : cutAtLastUtterance [.other "UtteranceUserActionFinished" [], .userIntent "hi", .botIntent "b",
       .other "UtteranceUserActionFinished" [], .userIntent "x", .botIntent "inform internal error occurred"]
     = some [.other "UtteranceUserActionFinished" [], .userIntent "hi", .botIntent "b"] := by decide
+
+
+/-! ## Wave 3: the loop keys on EVERY element dict (`V1Annot`)
+
+The compiler's annotation pass writes `_next_on_break` / `_next_on_continue` into every element of a loop body (`if`, `set`,
+`jump`, step elements, …), not only into `break` / `continue`.  `V1Interp.Elem` carries these keys only where the unchanged `slide`
+reads them, so the statements above say nothing about a `slide` that reads a loop key on another element type (seeded change
+C14-e: `if` skipped its body by `_next_on_break` when the key was present — an `if` inside a `while` left the loop).  `V1Annot`
+models the dicts with all their keys (`AElem`), the compiler with the full annotation pass (`compileA`) and `slide` reading the
+dicts key by key (`slideA`); the harness compares `compileA`'s keys with the parser's dicts element by element and the real `slide`
+with `slideA` at every head, and at every `if` inside a loop with both values of its condition. -/
+
+/-- The compiler with the full annotation pass yields the element list of `compile` (hence of `comp none`) when the loop keys
+    are dropped, and every dict it produces is coherent (the adapter's element and the dict agree on `_next_on_break` /
+    `_next_on_continue` wherever both hold them). ∀ programs. -/
+theorem compile_annotated_projects (p : Prog) : proj (compileA p) = compile p ∧ AllCoherent (compileA p) :=
+  ⟨compileA_proj p, compileA_coherent p⟩
+
+/-- **The loop keys are read by `while`, `break` and `continue` only.**  On coherent dicts — whatever `_next_on_break` /
+    `_next_on_continue` the `if`, `set`, `jump` and step elements carry — `slide` returns what it returns on the elements without
+    these keys.  ∀ element lists, fuel, contexts, heads. -/
+theorem loop_keys_read_only_by_loops (code : List AElem) (hc : AllCoherent code) (f : Nat) (st : SSt) (h prev : Int) :
+    slideA f code st h prev = slide f (proj code) st h prev := slideA_eq_slide code hc f st h prev
+
+/-- **slide_simulates on the dicts as the compiler leaves them** (loop keys on every element of every loop body): the real `slide`
+    loop on `compileA p` does what the structured run of `p` does.  In particular an `if` / `if-else` at any depth inside
+    `while` loops at any depth, with either value of its condition, goes on with the statement the structured program names —
+    inside the loop. -/
+theorem slide_annotated_simulates (p : Prog) (f : Nat) (st : SSt) :
+    match exec f st p with
+    | .atStep st' a => SlidesA (compileA p) st 0 (.at st' (off p a))
+    | .fell st' => SlidesA (compileA p) st 0 (.fin st')
+    | .err => SlidesA (compileA p) st 0 .err
+    | _ => True := by
+  have h := slide_simulates p f st
+  cases hout : exec f st p <;> simp only [hout] at h ⊢ <;> first | trivial | exact (slidesA_iff p st _ _).mpr h
+
+/-- the same, resuming after the step statement at any source address -/
+theorem slide_annotated_simulates_resume (p : Prog) (a : Addr) (f : Nat) (st : SSt) :
+    match execFrom f st p a with
+    | .atStep st' a' => SlidesA (compileA p) st ((off p a + 1 : Nat) : Int) (.at st' (off p a'))
+    | .fell st' => SlidesA (compileA p) st ((off p a + 1 : Nat) : Int) (.fin st')
+    | .err => SlidesA (compileA p) st ((off p a + 1 : Nat) : Int) .err
+    | _ => True := by
+  have h := slide_simulates_resume p a f st
+  cases hout : execFrom f st p a <;> simp only [hout] at h ⊢ <;> first | trivial | exact (slidesA_iff p st _ _).mpr h
+
+/-- One iteration of `slide` at an `if` dict: whatever loop keys the dict carries, a false condition skips by `_next_else`. -/
+theorem if_reads_next_else_only (code : List AElem) (st : SSt) (h : Int) (c : Expr) (ne : Int) (b k : Option Int) (v : V)
+    (hget : code[h.toNat]? = some { el := .ifE c ne, brk := b, cnt := k }) (hv : eval st.ctx c = some v) :
+    sstepA code st h = .next st (if v.truthy then h + 1 else h + ne) := by
+  simp [sstepA, hget, hv]
+
+/-- … whereas the "one conditional-jump branch for `if` and `while`" variant skips by `_next_on_break` when the dict has one. -/
+theorem if_brk_variant_step (code : List AElem) (st : SSt) (h : Int) (c : Expr) (ne : Int) (b k : Option Int) (v : V)
+    (hget : code[h.toNat]? = some { el := .ifE c ne, brk := b, cnt := k }) (hv : eval st.ctx c = some v) :
+    sstepIfBrk code st h = .next st (if v.truthy then h + 1 else h + b.getD ne) := by
+  simp [sstepIfBrk, hget, hv]
+
+/-- `$i = 0 / while $i < 2: (if $i == 1: bot half) ; $i = $i + 1 / bot bye` -/
+def ifInWhile : Prog :=
+  .set "i" (.lit (.int 0)) (.while (.bin .lt (.var "i") (.lit (.int 2)))
+    (.ite (.bin .eq (.var "i") (.lit (.int 1))) (.step (.bot "half") .nil) .nil
+      (.set "i" (.bin .add (.var "i") (.lit (.int 1))) .nil))
+    (.step (.bot "bye") .nil))
+
+/-- non-vacuity of `loop_keys_read_only_by_loops` / `if_reads_next_else_only`: the compiled loop body's `if` dict carries
+    `_next_on_break = 4`, `_next_on_continue = -1`, and the list is coherent -/
+example : (compileA ifInWhile)[2]? = some { el := .ifE (.bin .eq (.var "i") (.lit (.int 1))) 2, brk := some 4, cnt := some (-1) } ∧
+    AllCoherent (compileA ifInWhile) := ⟨by rfl, compileA_coherent _⟩
+
+/-- **The seeded variant, kernel-checked (finite fact):** the structured program reaches `bot half` in the second iteration
+    (context i = 1); `slideA` — the code as it is — stops there (element 3); the variant in which a false `if` skips by
+    `_next_on_break` leaves the loop in the FIRST iteration and stops at `bot bye` (element 6) with i = 0. -/
+theorem if_brk_variant_counterexample :
+    exec 50 ⟨[], []⟩ ifInWhile = .atStep ⟨[("i", .int 1)], [("i", .int 1)]⟩ (.next (.body (.thenB .here))) ∧
+    off ifInWhile (.next (.body (.thenB .here))) = 3 ∧
+    slideA 50 (compileA ifInWhile) ⟨[], []⟩ 0 0 = .at ⟨[("i", .int 1)], [("i", .int 1)]⟩ 3 ∧
+    slideIfBrk 50 (compileA ifInWhile) ⟨[], []⟩ 0 0 = .at ⟨[("i", .int 0)], [("i", .int 0)]⟩ 6 := by
+  refine ⟨by rfl, by rfl, by rfl, by rfl⟩
 
 end NemoVerif.C14
